@@ -1,7 +1,7 @@
 (* C02 — non-vacuity examples and sanity evaluations. *)
 From Coq Require Import ZArith List Bool String Lia.
 Import ListNotations.
-From GV Require Import Common.Wire gen.Gen_tables C12.Model gen.Gen_codecs C02.CodecModel C02.Model C02.Lemmas.
+From GV Require Import Common.Wire gen.Gen_tables C12.Model gen.Gen_codecs C02.CodecModel gen.Gen_methodcodecs C02.MethodCodecModel C02.Model C02.Lemmas.
 Open Scope Z_scope.
 
 (* ---- naming: labels that collide with disambiguated names.  "a" = [97], "a_0" = [97;95;48] *)
@@ -84,4 +84,23 @@ Example codec_reads_nonvacuous :
   existsb (fun sc => existsb (fun lc => same_codec sc lc && existsb (fun p => existsb (fun b =>
       negb (sp_dynamic p) && negb (lp_dynamic b) && compatible p b && (3 <=? Z.of_nat (List.length (lp_reads b)))%Z) (lc_paths lc)) (sc_paths sc))
     loader_codecs) saver_codecs = true.
+Proof. vm_compute. reflexivity. Qed.
+
+(* ---- method pairs: the table is not empty; VertexROIBase.__gluestate__ (PolygonalROI, Path) stores vx and vy computed from the
+   attributes vx / vy with no transformation outside the lossless list; an entry with a named transformation exists and is listed;
+   at least 30 (saver, loader) pairs are checked *)
+Example method_table_nonempty : (30 <=? List.length method_savers)%nat = true /\ (30 <=? List.length method_loaders)%nat = true /\ (30 <=? List.length method_pairs)%nat = true.
+Proof. vm_compute. repeat split. Qed.
+
+Definition key_is_identity_of (key att : string) (k : mkey) : bool :=
+  String.eqb (mk_key k) key && match mk_sources k, mk_lossy k with [a], [] => String.eqb a att | _, _ => false end.
+
+Example vertex_roi_saver_is_identity :
+  existsb (fun sv => String.eqb (ms_cls sv) "glue.core.roi.VertexROIBase" &&
+     forallb (fun p => existsb (key_is_identity_of "vx" "vx") (msp_keys p) && existsb (key_is_identity_of "vy" "vy") (msp_keys p)) (ms_paths sv)
+     && negb (match ms_paths sv with [] => true | _ => false end)) method_savers = true.
+Proof. vm_compute. reflexivity. Qed.
+
+Example method_named_transformation_exists :
+  existsb (fun sv => existsb (fun p => existsb (fun k => negb (match mk_lossy k with [] => true | _ => false end)) (msp_keys p)) (ms_paths sv)) method_savers = true.
 Proof. vm_compute. reflexivity. Qed.
